@@ -1,0 +1,15 @@
+//go:build verif
+
+package schedule
+
+// VerifYield, when set, is called at the lock-free points of the composite schedule
+// (between dropping the read lock and taking the write lock, and before retries).
+// It exists only in builds with the `verif` tag and lets a runtime monitor widen or
+// control the interleavings of concurrent Next/Left callers.
+var VerifYield func(point string)
+
+func verifYield(point string) {
+	if f := VerifYield; f != nil {
+		f(point)
+	}
+}
